@@ -270,8 +270,58 @@ def foreign_operands(model, p, evs, src):
     return bad
 
 
+def check_no_blocking(ctx):
+    """"every later definition still succeeds" after a crash at any point: nothing the cache update
+    does may wait for another writer -- a lock taken by a process that died is never released.
+    No lock file, no OS lock, no wait loop in generate_code or anything it calls"""
+    repo = ctx.repo
+    rule = 'R10-no-waiting-on-other-writers'
+    cg = repo.cls('CodeGenerator')
+    gen = cg.methods.get('generate_code')
+    if gen is None:
+        raise Undecided('anchor CodeGenerator.generate_code not found')
+    # generate_code and the package functions it reaches, also through ``with helper(...)``
+    todo, seen = [gen], {gen.id: gen}
+    while todo:
+        fi = todo.pop()
+        for f in repo.reach(fi, depth=3):
+            if f.id not in seen:
+                seen[f.id] = f
+        for n in ast.walk(fi.node):
+            if isinstance(n, ast.Call) and isinstance(n.func, ast.Name):
+                g = repo.functions.get('%s::%s' % (fi.file, n.func.id))
+                if g is not None and g.id not in seen:
+                    seen[g.id] = g
+                    todo.append(g)
+    found = 0
+    for fi in seen.values():
+        for n in ast.walk(fi.node):
+            what = None
+            if isinstance(n, ast.Call):
+                nm = call_name(n) or ''
+                flags = ' '.join(unparse(a) for a in n.args[1:]) + ' '.join(unparse(k.value) for k in n.keywords)
+                if nm in ('os.open',) and 'O_EXCL' in flags:
+                    what = 'an exclusive-create lock file'
+                elif nm in ('open',) and any(isinstance(a, ast.Constant) and isinstance(a.value, str) and 'x' in a.value for a in n.args[1:2]):
+                    what = 'an exclusive-create lock file'
+                elif nm.split('.')[-1] in ('flock', 'lockf') or nm in ('msvcrt.locking',):
+                    what = 'an OS file lock'
+                elif nm.split('.')[-1] == 'acquire' and not nm.startswith('self.'):
+                    what = 'a lock'
+            elif isinstance(n, (ast.While, ast.For)):
+                if any(isinstance(c, ast.Call) and (call_name(c) or '') in ('time.sleep', 'sleep') for c in ast.walk(n)):
+                    what = 'a wait loop (sleep inside a loop)'
+            if what:
+                found += 1
+                ctx.violation(rule, fi, stmt_text(n)[:100], 'the cache update waits on %s: a writer that died while holding it blocks every later definition of the class for ever' % what, n.lineno, clause='C', witness=True)
+    if not found:
+        ctx.holds(rule, gen, 'generate_code and the %d functions it reaches' % (len(seen) - 1), 'no lock file, OS lock or wait loop: a definition never waits for another writer', gen.node.lineno, clause='C')
+    ctx.unit('functions_reached', len(seen))
+
+
 def check(ctx):
     model = CacheModel(ctx.repo, max_paths=max(ctx.max_paths, 65536))
+    check_no_blocking(ctx)
     ctx.unit('functions')
     r = check_protocol(ctx, model, 'ATVR')
     ctx.unit('load_sites', r['loads'])
